@@ -276,6 +276,17 @@ class Gen:
                 for p in [{}, {"vendorKey": [1, {"nestedKey": None}]}, "text"]:
                     cases.append(("vendor", version, [self.route(va, ("ret", {}), after=("ret",))], json.dumps([2, "v", va, p])))
                     cases.append(("skip-vendor", version, [dict(self.route(va, ("ret", {}), skip=True), vendor=True)], json.dumps([2, "v", va, p])))
+            # free-form data (DataTransfer.data of any shape, 2.0.1 customData) whose KEYS are unusual: doubled, leading and
+            # trailing underscores, only underscores, empty, digits, non-ASCII -- inbound and in the handler's result
+            odd = {"fw__rev": 1, "class_": [{"a__b": {"_": 0}}], "_lead": 2, "__": 3, "_": 4, "": 5, "9lives": 6, "ünï_cöde": 7,
+                   "a_b_": {"__x__": [1]}, "soc": 1, "url_": 2, "x_url": 3}
+            dt_req = {"vendorId": "v", "data": odd} if version == "1.6" else {"vendorId": "v", "data": odd, "customData": dict(odd, vendorId="v")}
+            dt_res = {"status": "Accepted", "data": odd} if version == "1.6" else {"status": "Accepted", "data": odd, "custom_data": dict(odd, vendor_id="v")}
+            if version == "2.0.1":
+                cases.append(("ok", version, [self.route("DataTransfer", ("ret", dt_res), after=("ret",))],
+                              json.dumps([2, "odd-keys", "DataTransfer", dt_req])))
+            cases.append(("skip", version, [self.route("DataTransfer", ("ret", dt_res), skip=True, after=("ret",))],
+                          json.dumps([2, "odd-keys-skip", "DataTransfer", dt_req])))
             # handler that cannot take the payload (explicit parameters) -> TypeError -> InternalError
             es = {"required": ["nope"], "optional": [], "varkw": False, "uid": False}
             cases.append(("bind-fail", version, [self.route("Heartbeat", ("ret", {"current_time": "t"}), sig=es)],
